@@ -57,9 +57,9 @@ Print Assumptions C20_reply_after_command.
 
 Example C20_nonvacuous :
   exists s, run (init 2)
-    [Enq 1 (ICmd 1 [65]%N); SDeq (ICmd 1 [65]%N); SLogAdd [65]%N; SLockAcq; SWriteA (frame [65]%N);
+    [Enq 1 (ICmd 1 [65]%N); SDeq (ICmd 1 [65]%N); SCheckConn true; SLogAdd [65]%N; SLockAcq; SWriteA (frame [65]%N);
      DevEmit [66;13;10]%N (Some 0%nat); RRead [66;13;10]%N; RLineStart [66]%N; RLogAdd [66]%N;
      Enq 1 (ICmd 1 [67]%N); SLockRel; SSleepStartA p_spacing; Tick p_spacing; SWake;
-     SDeq (ICmd 1 [67]%N); SLogAdd [67]%N] = Some s
+     SDeq (ICmd 1 [67]%N); SCheckConn true; SLogAdd [67]%N] = Some s
   /\ logbuf s = [LRecv [66]%N; LSend [67]%N] /\ length (g_log s) = 3%nat.
 Proof. eexists. split; [vm_compute; reflexivity|split; reflexivity]. Qed.
